@@ -15,7 +15,14 @@ for d in sorted(os.listdir("/verif/seeded")):
                 readme = line[:160]; break
     lr = m.get("last_run", {}).get("results", {})
     verdict = "; ".join(f"{p}: " + ("VIOLATION" + (" (no-failing-input-found)" if r["violations"] and all("no-failing-input-found" in v for v in r["violations"]) else " with concrete replay") if r["exit"] == 1 else "missed") for p, r in lr.items())
-    rows.append(f"| {d} | {m['property']} | {readme} | {verdict} | {'; '.join(m.get('detected_by', []))[:200]} |")
+    if "obsolete" in m:
+        verdict = "obsolete: " + str(m["obsolete"])[:120]
+    caught = "; ".join(m.get("detected_by", []))
+    if not caught:   # later rounds: what the last run printed
+        caught = "; ".join(f"{p}: {w.lstrip('# ')}" for p, r in lr.items() if r["exit"] == 1 for w in r.get("why", [])[:1])
+    if m.get("missed_at_first"):
+        caught += " — missed at first: " + m["missed_at_first"]
+    rows.append(f"| {d} | {m['property']} | {readme} | {verdict} | {caught[:260]} |")
 print("| seeded change | breaks | what it is (first line of its README) | last run of the checks | caught by |")
 print("|---|---|---|---|---|")
 print("\n".join(rows))
